@@ -268,12 +268,18 @@ def one_run(pa, c, d, cfg, samplers):
         p = {"high": 0.01, "medium": 0.02, "low": 0.1}[p]
     pf = Fraction(p).limit_denominator(10000) if p is not None else Fraction(1)
     g = res.gamma
+    rlo, rhi, rexc = 0, 0, ""
+    try:
+        lo_, hi_ = res.approx_gamma_range
+        rlo, rhi = fx(lo_), fx(hi_)
+    except Exception as ex:
+        rexc = type(ex).__name__
     trace = {"n": cfg["n"], "hasprec": 0 if cfg["precision"] is None else 1, "pa": pf.numerator, "pb": pf.denominator,
              "cvnum": limbs(cv2.numerator), "cvden": limbs(cv2.denominator), "mode": cfg["mode"],
              "sampler": "stat" if cfg["sampler"] == "stat" else "shuffle", "ngt": len(cfg["gt"] or c.annotators),
              "draws": rec.draws, "submits": rec.submits, "chance": chance, "best": entry(res.best_alignment),
              "observed": fx(res.observed_disorder), "expected": fx(res.expected_disorder), "gamma": fx(g),
-             "identical": 1 if cfg.get("identical") else 0}
+             "identical": 1 if cfg.get("identical") else 0, "rlo": rlo, "rhi": rhi, "rexc": rexc}
     return res, trace, None
 
 
@@ -357,7 +363,7 @@ def judge(recs, groups, label):
     return res, verdicts
 
 
-C05_CLAUSES = {"ObsCount", "ObsNoExtraDraw", "ObsChanceOrder", "ObsSampleValid", "ObsMode", "ObsObserved", "ObsExpected",
+C05_CLAUSES = {"ObsRange", "ObsCount", "ObsNoExtraDraw", "ObsChanceOrder", "ObsSampleValid", "ObsMode", "ObsObserved", "ObsExpected",
                "ObsGamma", "ObsLeOne", "ObsIdentical"}
 C06_CLAUSES = {"DrawInMainThread", "DrawBeforeSubmit", "ObsChanceOrder", "ObsSameAsFirst"}
 
